@@ -63,7 +63,7 @@ CHECKERS = ("weighted", "weighted", "weighted", "basic_cc", "basic_nocc")
 
 def plan(tier, seed):
     n = 16 if tier == "quick" else 64
-    scen = 5 if tier == "quick" else 12
+    scen = 5 if tier == "quick" else 8
     env = {"MALLOC_MMAP_THRESHOLD_": "33554432", "MALLOC_TRIM_THRESHOLD_": "1073741824", "MALLOC_TOP_PAD_": "67108864"}
     return [{"shard": i, "scenarios": scen, "timeout": 1500 if tier == "quick" else 3400, "env": env} for i in range(n)]
 
@@ -720,3 +720,7 @@ MANIFEST_ENTRY = {
     "text": "Generated multi-object programs (random shapes, sampled 3D poses, collision flags, containers, workspaces, hard/soft user requirements, requireVisible / visible from / not visible from with an occluding wall) are sampled 30-160 times each. Every candidate's ordered requirement evaluations are logged through wrappers on SamplingRequirement.falsifiedBy and SampleChecker.checkRequirements: an accepted candidate must have every active mandatory requirement evaluated and not falsified, whatever ordering the WeightedAcceptanceChecker derived from the scripted clock. Every returned scene is re-verified: pairwise overlap and containment by rt.geomoracle, user predicates in Python, visibility by range/occlusion arguments (definite cases only).",
     "note": "Trusts rt.geomoracle, the pose read back from the scene objects, and the mapping program object i = scene.objects[i]. Visibility is decided only in analytically clear configurations; everything else is counted as undecided.",
 }
+
+
+# thorough-tier floors: the quick-tier floors scaled by a conservative fraction of the size ratio of the two tiers
+MIN_COUNTERS["thorough"] = {k: int(v * 3) for k, v in MIN_COUNTERS["quick"].items()}
